@@ -20,18 +20,25 @@ def strip_comments(t):
     return re.sub(r"//[^\n]*", " ", t)
 
 
+EX = set()
+
+
 def parse_protos(hdr):
     flat = re.sub(r"\s+", " ", strip_comments(hdr))
     protos = {}
-    for m in re.finditer(r"(\w+)_create ?\(([^)]*)\)", flat):
+    for m in re.finditer(r"(\w+?)_create(Ex)? ?\(([^)]*)\)", flat):
         params = []
-        for p in m.group(2).split(","):
+        if m.group(1) in protos and not m.group(2):
+            continue          # keep the richer _createEx variant
+        for p in m.group(3).split(","):
             p = p.strip()
             if not p or p == "void":
                 continue
             mm = re.match(r"(.*?)(\w+)$", p)
             params.append((mm.group(1).strip().replace("const ", "").strip(), mm.group(2)))
         protos[m.group(1)] = params
+        if m.group(2):
+            EX.add(m.group(1))
     return protos
 
 
@@ -164,8 +171,8 @@ def generate(src):
                 d, a = arg_code(pt, pn, k); k += 1
                 decls.append(d); args.append(a)
             j += 1
-        out.append("  case %d: { %s %s return (InformationObject) %s_create(%s); }" %
-                   (i, "" if has_ioa else "*ioa_used = 0;", " ".join(decls), c, ", ".join(args)))
+        out.append("  case %d: { %s %s return (InformationObject) %s_create%s(%s); }" %
+                   (i, "" if has_ioa else "*ioa_used = 0;", " ".join(decls), c, "Ex" if c in EX else "", ", ".join(args)))
     out.append("  }\n  return NULL;\n}")
     # dump
     out.append("static void gen_dump(int t, InformationObject io, char* buf) {\n  char* p = buf; *p = 0;\n  switch (t) {")
